@@ -32,6 +32,7 @@ import (
 	osexec "os/exec"
 	"os/signal"
 	"path/filepath"
+	"reflect"
 	"runtime"
 	"runtime/pprof"
 	"sort"
@@ -395,7 +396,11 @@ func main() {
 	sizes := make([]size, len(roots))
 	slots := make([]int, len(roots))
 	for i := range roots {
-		p, c, _ := buildValue(reg, roots[i].T, nil)
+		var p reflect.Value
+		var c *chooser
+		if pv, val := vk.Catch(func() { p, c, _ = buildValue(reg, roots[i].T, nil) }); pv {
+			vk.Fatalf("harness: building the default value of %s panics: %v", roots[i].Name, val)
+		}
 		sz := size{slots: len(c.pts), altsByDepth: map[int]int{}}
 		for _, pt := range c.pts {
 			for _, d := range []int{0, 1, 2} {
@@ -425,6 +430,7 @@ func main() {
 		}
 		return cases * (4 + sz.length/40)
 	}
+	add(unit{Kind: "audit", Cost: 1 << 41}) // the registry audit runs (and is reported) first
 	add(unit{Kind: "maporder", Cost: 1 << 40})
 	for i := range roots {
 		n := 1
@@ -488,7 +494,7 @@ func main() {
 		var keep []unit
 		for _, u := range units {
 			for _, sub := range strings.Split(only, ",") {
-				if u.Kind != "maporder" && strings.Contains(roots[u.Root].Name, sub) {
+				if u.Kind != "maporder" && u.Kind != "audit" && strings.Contains(roots[u.Root].Name, sub) {
 					u.ID = len(keep)
 					keep = append(keep, u)
 					break
@@ -613,7 +619,7 @@ func main() {
 		}
 		for k, v := range res.Counters {
 			counters[k] += v
-			if units[ui].Kind != "maporder" {
+			if units[ui].Kind != "maporder" && units[ui].Kind != "audit" {
 				perRoot[units[ui].Root][k] += v
 			}
 		}
